@@ -561,6 +561,14 @@ def gen_scripts(prop, tier, seed):
             if s and s[0].split()[1] in spec["kinds"] and s[0].split()[8] in spec["modes"]:
                 scripts.append(s)
     ncorpus = len(scripts)
+    if "single" in spec["modes"]:
+        # one script of every 'unusual input' family per container (gen.gen_extreme), the huge ones in thorough only
+        for kind in spec["kinds"]:
+            scripts.extend(gen.extremes_fixed(rng, kind))
+            if tier == "thorough":
+                scripts.append(gen.gen_extreme(rng, kind, "hot", huge=True))
+                if kind not in gen.TTL_KINDS:
+                    scripts.append(gen.gen_extreme(rng, kind, "longrun", huge=True))
     for kind in spec["kinds"]:
         for mode in spec["modes"]:
             if mode == "c20" and kind not in ("utlru", "utmap"):
